@@ -87,8 +87,14 @@ def mk_reqs(rng, n, with_pos_none):
             ks.add(n + rng.randint(2, 5))
         else:
             ks.add(0)
+    order = sorted(ks)
+    r = rng.random()
+    if r < 0.12:
+        order.append(rng.choice(order))          # the same index twice in the file: the file is refused
+    if r < 0.3 or r > 0.85:
+        rng.shuffle(order)                         # the lines of a terminal file need not be sorted
     reqs = []
-    for k in sorted(ks):
+    for k in order:
         pos = rng.choice(["NN", "XY", "$,"])
         if with_pos_none and rng.random() < 0.3:
             pos = None
@@ -120,14 +126,21 @@ def terminal_file(rng):
         ret = None
     cs = tx.call_str(name, params, reqs)
     lines = [Line("corr", "apply", [cs, a], res)]
-    if ret is not None:
+    dup = len(set(k for k, _, _ in reqs)) < len(reqs)
+    if dup:
+        # a file that names an index twice is refused (and nothing has been done to the tree)
+        if res != "ERR:ValueError":
+            l = Line("pred", "P.C11", [cs, a, a], note="a terminal file with a duplicate index was not refused: " + res[:40])
+            l.expect = "rejection-expected"
+            lines.append(l)
+    elif ret is not None:
         lines.append(Line("pred", "P.C11", [cs, a, res]))
     else:
         l = Line("pred", "P.C11", [cs, a, a], note="returned " + res)
         l.expect = "no-error-expected"
         lines.append(l)
     second = None
-    if rng.random() < 0.4:
+    if not dup and rng.random() < 0.4:
         # a second sentence with the same id served from the same terminal file (every file of a directory numbers
         # its sentences from 1; the same tree processed again): the file says the same thing about it
         t2 = t if rng.random() < 0.3 else treegen.gen_tree(rng, treegen.Cfg(n_min=1, n_max=8, labels=treegen.PLAIN_LABELS))
